@@ -26,6 +26,8 @@ type Sub struct {
 	Replay func(v report.Violation) string
 	// Race: run free-running in the -race binary instead of under the scheduler.
 	Race bool
+	// Parallel: the sub uses goroutine parallelism itself (no GOMAXPROCS=1).
+	Parallel bool
 }
 
 // Check is everything registered for one property.
